@@ -291,9 +291,18 @@ class SimFS:
         timestamp granularity of the previous write (coarse mtime / stopped clock)."""
         p = os.path.join(self.root, rel)
         os.makedirs(os.path.dirname(p), exist_ok=True)
+        keep = None
+        if not advance:
+            try:
+                keep = os.stat(p).st_mtime_ns       # coarse-granularity file system / `cp -p` / `rsync -t`
+            except OSError:
+                keep = None
         with _REAL_OPEN(p, "w", encoding=self.encoding, newline="") as f:
             f.write(text)       # the client's editor saves in the locale's encoding
-        self.stamp(rel, advance)
+        if keep is not None:
+            os.utime(p, ns=(keep, keep))
+        else:
+            self.stamp(rel, advance)
 
     def dirs(self):
         out = set()
